@@ -224,6 +224,8 @@ Fixpoint compg (q : query) (ce : cenv) (tp : tailpos) (cur pc nv sn : nat) {stru
       | Some (ct, n1, s1) => Some (ct ++ [Iindex k], n1, s1)
       | None => None end
   | QIf c a b =>
+      (* an `if` without else (e.Else == nil; elif chains are nested ifs) is QIf c a QId: compileIf then emits
+         pre; jumpifnot e; a; jump e with e the position after the jump, which is this clause for cb = [] *)
       match compg c ce None cur (pc + 2) nv sn with
       | Some (cc, n1, s1) =>
           let pre := match cc with [] => [Idup] | _ => Idup :: Iexpbegin :: cc ++ [Iexpend] end in
